@@ -1534,18 +1534,21 @@ def run(ctx: Ctx) -> None:
         terms += [t for t in c11.all_terms(False) if t[0] == 'par' and t[3]]
     bound = 3 if thorough else 2
     fc = foreach_ship_cases()
+    cnt = {'gates': 0, 'models': 0, 'passdata': 0, 'workflows': 0,
+           'foreach-ship': 0}
+    items_done = {k2: 0 for k2 in cnt}
+    # cheap and decisive: judged right here before any pool exists
+    r = passdata_worker(pc)
+    _take(ctx, 'passdata', r, viols)
+    cnt['passdata'] += r['n']
     work: list = []
-    work += [('gates', (idxs[i::k], ctx.seed)) for i in range(k)]
     work += [('models', mc[i:i + 60]) for i in range(0, len(mc), 60)]
-    work += [('passdata', [c]) for c in pc]
+    work += [('gates', (idxs[i::k], ctx.seed)) for i in range(k)]
     work += [('foreach-ship', fc[i:i + 4]) for i in range(0, len(fc), 4)]
     work += [('workflows', (t, bound)) for t in terms]
     dl = ctx.t0 + (500 if thorough else 45)
     classes: set = set()
     skipped: list = []
-    cnt = {'gates': 0, 'models': 0, 'passdata': 0, 'workflows': 0,
-           'foreach-ship': 0}
-    items_done = {k2: 0 for k2 in cnt}
     for part, r in pmap(misc_worker, work, procs=ctx.procs, deadline=dl):
         _take(ctx, 'workflows' if part == 'foreach-ship' else part, r, viols)
         cnt[part] += r['n']
